@@ -39,7 +39,7 @@ class C15(BaseCheck):
                       'resp:produce', 'resp:metadata', 'routing')
   ASSUMPTIONS = ('topics and payloads are bytes (the only form the Python-3 code path and the '
                  'repository\'s own test use)',)
-  QUICK_CASES = 320
+  QUICK_CASES = 640
   THOROUGH_CASES = 12000
   QUICK_WALL = 40
   THOROUGH_WALL = 300
